@@ -33,6 +33,12 @@ CHECKS["C19"] = dict(technique="property-based testing (rapid): stateful model-b
 CHECKS["C17"] = dict(technique="property-based testing (rapid): adversarial-stream generators for Pick/Embed, model membership, replay-of-consumed-bytes determinism, Embed/Data round trip, differential hash-to-curve (RFC 9380 math/big model for edwards25519, cross-back-end for BLS12-381)",
   text="Generated (group, stream incl. retry-forcing prefixes, data lengths around EmbedLen, messages, DSTs up to 300 bytes): produced points are group members in the library and in the math/big models, are functions of exactly the consumed bytes / (message, DST), differ for different messages and tags, Embed/Data is lossless up to EmbedLen before and after encode/decode, Data never panics, the Ed25519 hash equals an RFC 9380 model validated on the RFC vectors, and BLS12-381 hashes agree across Kilic/CIRCL/gnark. Exploration only.",
   note="Trusted: math/big curve and RFC 9380 models (validated on the RFC's own vectors at start-up), rapid. Empty DST is outside the domain (RFC 9380 3.1).", ref="4/C17")
+CHECKS["C08"] = dict(technique="property-based testing (rapid): sign/verify round trips with decode-classified mutations; differential against crypto/ed25519 and an Edwards model; linkage metamorphic relations for ring signatures",
+  text="Generated keys/messages/mutations for Schnorr over every group with a base point (mutations classified identical/equivalent/different by decoding), canonicity predicates vs integer comparison and the Edwards model on boundary strings, EdDSA byte-identical to crypto/ed25519 with adversarial triples (s+kL, torsion-shifted R/A, small-order, non-canonical) where kyber-accept must imply stdlib-accept and the malleability classes must be rejected, and ring signatures (sizes 1..8, all positions, linkable or not) with ring/message/scope/signature mutations and tag linkage relations. Exploration only.",
+  note="Trusted: crypto/ed25519, math/big Edwards model, rapid. Soundness is only tested against the listed mutation families.", ref="4/C08")
+CHECKS["C09"] = dict(technique="property-based testing (rapid): generated partial-signature lists with injected invalid/duplicate partials against the unique-signature oracle; BDN aggregates against reference sums; CoSi mask state machine against a bit-set model",
+  text="For the 8 (suite, signature group) combinations: BLS sign/verify with key/message/signature mutations; threshold BLS recovery from arbitrary orders of valid, invalid and duplicate partials must equal bls.Sign(secret) exactly or be refused below t; BDN aggregates over masks built by five routes equal harness-computed reference sums, verify under exactly their mask and no neighbouring mask; CoSi collective signatures verify iff the policy holds and every semantically different mutation is rejected; the CoSi mask is compared with a bit-set model after every SetBit/SetMask. Exploration only.",
+  note="Trusted: rapid; the BDN coefficient derivation (blake2s XOF over the key list) is re-implemented from its specification; pairing correctness itself is C06.", ref="4/C09")
 NOT_YET = {}
 
 def main():
